@@ -33,6 +33,8 @@ def check(run):
     run.attempt(prop, run, p, 'C05', DF_ASSERTS)
     run.attempt(state, run, p, pc)
     run.attempt(ordersrc, run, p, cd)
+    run.attempt(typelevels, run, p)
+    run.attempt(rowsafter, run, p, cd)
     nocache_rule(run, 'C05-NOCACHE', p, ['tdda.referencetest.checkpandas', 'tdda.referencetest.basecomparison'],
                  'frames handed to a comparison are never memoised: no caching decorator and no class-level container used as a cache in the '
                  'comparison modules (check_dataframe sorts its inputs in place, so a shared cached frame would change under later checks)')
@@ -243,6 +245,96 @@ def state(run, p, pc):
                         run.ob('C05-STATE', '%s::%s::self.%s' % (f.rel, f.short, t.attr), ok,
                                '`%s` %s' % (norm(s)[:60], 'depends only on this call' if ok else 'reads the value left by a previous call'), fn=f, node=s)
     run.floor('C05-STATE', n, 3)
+
+
+def typelevels(run, p):
+    from ..pyeval import Interp, Model, Unsupported, Raised
+    run.rule('C05-TYPELEVEL', 'a changed column type fails at the requested level: types_match, evaluated on pairs of dtype names, is '
+                              'name equality at the default and strict levels (time zone, unit, storage and width included), relaxes only '
+                              'width and what an object column may hold at medium, numeric-versus-numeric at permissive, and at no level equates '
+                              'a number with a date or declared text, or a date with text, a period or a time difference')
+    f = p.fn('tdda.referencetest.checkpandas.types_match')
+
+    class DT(Model):
+        def __init__(self, name):
+            self.name = name
+
+        def __str__(self):
+            return self.name
+    names = ['int64', 'int32', 'Int64', 'int64[pyarrow]', 'uint8', 'float64', 'float32', 'Float64', 'bool', 'boolean', 'object', 'string', 'str',
+             'category', 'datetime64[ns]', 'datetime64[us]', 'datetime64[ns, UTC]', 'datetime64[ns, Europe/Paris]', 'timedelta64[ns]', 'period[D]',
+             'period[M]']
+
+    def kind(nm):
+        b = nm.lower()
+        if b.startswith(('int', 'uint')):
+            return 'int'
+        if b.startswith('float'):
+            return 'float'
+        if b.startswith('bool'):
+            return 'bool'
+        if b.startswith('datetime'):
+            return 'datetime'
+        if b in ('object', 'string', 'str'):
+            return 'text'
+        return b.split('[')[0]
+    bad = []
+    n = 0
+    for level in (None, 'strict', 'medium', 'permissive'):
+        for a in names:
+            for b in names:
+                try:
+                    got = Interp(p).call(f, [DT(a), DT(b)], {'level': level} if level else {})
+                except (Unsupported, Raised) as e:
+                    raise AnalysisError('types_match is not evaluable: %s' % e)
+                n += 1
+                if a == b:
+                    want = True
+                elif level in (None, 'strict'):
+                    want = False
+                else:
+                    ka, kb = kind(a), kind(b)
+                    # what no relaxed level equates: a number with a date or with declared text, a date with declared text or a
+                    # period / time difference (object is the one dtype that may hold any of these, by design; category is left open)
+                    groups = {'int': 'number', 'float': 'number', 'bool': 'number', 'datetime': 'date', 'timedelta': 'span', 'period': 'period'}
+                    ga = groups.get(ka, 'text' if a in ('string', 'str') else None)
+                    gb = groups.get(kb, 'text' if b in ('string', 'str') else None)
+                    want = False if (ga and gb and ga != gb) else None
+                if want is not None and bool(got) != want:
+                    bad.append((level, a, b, got))
+    run.ob('C05-TYPELEVEL', '%s::%s' % (f.rel, f.short), not bad,
+           'types_match over %d (level, dtype, dtype) triples%s' % (n, '' if not bad else '; at level %r %s and %s %s' % (
+               bad[0][0], bad[0][1], bad[0][2], 'match' if bad[0][3] else 'do not match')), fn=f)
+    run.floor('C05-TYPELEVEL', n, 1500)
+
+
+def rowsafter(run, p, cd):
+    run.rule('C05-ROWSAFTER', 'the numbers of rows are compared after the condition filter and the sort: in check_dataframe the statement that '
+                              'takes the lengths used for the row-count report comes after every rebinding of the two frames')
+    fns = [cd] + [g for _c, ts, _k in p.calls(cd) for g, _ctx in ts if g.cls is cd.cls and g is not cd]
+    n = 0
+    for f in fns:
+        rep = [x for x in p.own_nodes(f) if isinstance(x, ast.Call) and isinstance(x.func, ast.Attribute) and x.func.attr == 'different_numbers_of_rows']
+        if not rep:
+            continue
+        frames = [q for q in f.posparams if q in ('df', 'ref_df', 'actual_df', 'expected_df', 'ref')][:2] or list(f.posparams[1:3])
+        lens = [x for x in p.own_nodes(f) if isinstance(x, ast.Call) and getattr(x.func, 'id', '') == 'len' and x.args
+                and isinstance(x.args[0], ast.Name) and x.args[0].id in frames]
+        rebinds = [s_ for s_ in p.own_nodes(f) if isinstance(s_, ast.Assign) and any(isinstance(t, ast.Name) and t.id in frames for t in s_.targets)]
+        rebinds += [x for x in p.own_nodes(f) if isinstance(x, ast.Call) and isinstance(x.func, ast.Attribute) and x.func.attr in ('sort_values', 'sort_index')
+                    and isinstance(x.func.value, ast.Name) and x.func.value.id in frames]
+        if not lens:
+            raise AnalysisError('%s: the lengths compared for the row-count report were not found' % f.short)
+        n += 1
+        first_len = min(x.lineno for x in lens)
+        late = [s_ for s_ in rebinds if s_.lineno > first_len]
+        run.ob('C05-ROWSAFTER', '%s::%s' % (f.rel, f.short), not late,
+               'row counts are taken at line %d%s' % (first_len, ', after every filter and sort' if not late else
+                                                      '; the frames are still filtered or sorted afterwards (line %d: %s)' % (late[0].lineno, norm(late[0])[:50])),
+               fn=f, node=late[0] if late else None)
+    if n == 0:
+        raise AnalysisError('check_dataframe: the row-count report was not found')
+    run.floor('C05-ROWSAFTER', n, 1)
 
 
 def ordersrc(run, p, cd):
